@@ -25,14 +25,16 @@
 (*                      recv) and runs its T2 on this thread               *)
 (*                  E4  the proxy unsubscribes itself    -> maybe srcTd    *)
 (*                                                                         *)
-(* refCount is ONE counter for all generations: a reference taken on a     *)
-(* generation that has been reset meanwhile is given back to the counter   *)
-(* of the NEXT generation (known finding share.stale-refcount-after-reset- *)
-(* leaks-upstream).  TLC shows it at this level: Released is violated with *)
-(* Aware = {FALSE} (ShareImpl_known.cfg) and holds for a counter per       *)
-(* generation, Aware = {TRUE} (ShareImpl_aware.cfg); OneLive, Grammar and  *)
-(* NonNegative hold for both.  ShareImplTrace.tla binds the real code to   *)
-(* this model: every recorded run must be a behaviour of it.               *)
+(* The reference counter belongs to the generation (fix 75994e7).  Before  *)
+(* the fix refCount was ONE counter for all generations: a reference taken *)
+(* on a generation that had been reset meanwhile was given back to the     *)
+(* counter of the NEXT generation (finding share.stale-refcount-after-     *)
+(* reset-leaks-upstream).  TLC shows it at this level: Released is         *)
+(* violated with Aware = {FALSE} (ShareImpl_known.cfg, the former code)    *)
+(* and holds for a counter per generation, Aware = {TRUE}                  *)
+(* (ShareImpl_aware.cfg, the code now); OneLive, Grammar and NonNegative   *)
+(* hold for both.  ShareImplTrace.tla binds the real code to this model:   *)
+(* every recorded run must be a behaviour of it with Aware = {TRUE}.       *)
 (***************************************************************************)
 EXTENDS Integers, Sequences, FiniteSets, TLC
 
@@ -40,7 +42,7 @@ CONSTANTS Confs,          \* set of ShareConfig records [re, rc, rz]: ResetOnErr
           P,              \* threads
           MaxGen, MaxObs, \* bounds on generations / observers
           MaxOps,         \* model-checking mode: operations per thread
-          Aware           \* set of booleans: FALSE = one counter (the code), TRUE = one counter per generation (the repaired design)
+          Aware           \* set of booleans: TRUE = one counter per generation (the code since 75994e7), FALSE = one counter for all (the former code)
 
 VARIABLES conf, mu, cur, ngen, rc, hasE, hasC, aware,
           G,        \* per generation: [ssDone, srcAdded, pstatus, pdone, tdReg, k, sterm, sobs, slock]
